@@ -17,6 +17,6 @@ if [ "$DEMO" != "-" ]; then
 fi
 (cd $D && go test -vet=off -count=1 . >/tmp/base_mut.log 2>&1) && echo "baseline tests with change: PASS" || { echo "baseline tests with change: FAIL"; tail -5 /tmp/base_mut.log; }
 for ID in "$@"; do
-  VERIF_REPO=$D /verif/bin/vcheck run $ID 2>&1 | grep -E "^(VIOLATION|KNOWN|  key|C[0-9]+ tier|vcheck)" | head -${HEADN:-6}
+  VERIF_REPO=$D VERIF_EVIDENCE_DIR=$D/.evidence /verif/bin/vcheck run $ID 2>&1 | grep -E "^(VIOLATION|KNOWN|  key|C[0-9]+ tier|vcheck)" | head -${HEADN:-6}
 done
 rm -rf $D
